@@ -22,6 +22,17 @@ An op list (JSON-able):
                                   macros, expanded while the history runs into the concrete ops above (complete every pending job;
                                   a patient writer: add, drain and retry on wait, then write + close; a patient reader likewise)
   ["rseg", key] ["rfile", key]    what a client / the disk shows under the key's shmid
+Fine-grained steps of the code that runs on the Disk threads (stream conc; fakes/shm_fakes.py Task): requests and steps of other jobs
+run while a job body or a Manager callback is parked at one of its yield points (log call, lock acquisition, segment / file operation)
+  ["bstep", jid, fault, n]        the body of job jid (started if need be; fault counts then) passes n yield points, parks at the next or ends
+  ["cpart", jid]                  the callback of job jid runs up to its next blocking lock acquisition (parked right before it) or to its end
+  ["cstep", jid, n]               the callback passes n yield points of any kind
+  io / unlink / cb                finish whatever a fine-grained step has begun
+  ["weave", seed, mode, reqs, pf] macro: a random interleaving of the steps of all pending jobs (mode "lock": callbacks by cpart, "any": cstep,
+                                  page-out bodies by bstep too) with the requests reqs; ["addfit", key] = allocate exactly the free space last
+                                  reported; ["peek", key, label] = get, closed at once when granted
+The capacity of a history is either a number (configured capacity; /dev/shm offers plenty) or [configured | None, available]: what the
+server is started with and what findmnt reports for /dev/shm.
 After every op a FreeSpaceRequest goes through the same loop.
 Observation per op: [kind, ..., free_space_after, [[jobkind, key, size], ...newly submitted jobs]]
 """
@@ -39,7 +50,7 @@ from common import cN, cZ, cbool, clist, copt, cstr
 from fakes import shm_fakes as F
 
 HEADER = """From Coq Require Import List NArith ZArith String.
-From EKW Require Import Shm.Lottery Shm.Manager Shm.ManagerCheck.
+From EKW Require Import Shm.Lottery Shm.Manager Shm.ManagerConc Shm.ManagerCheck.
 Import ListNotations.
 Open Scope string_scope.
 """
@@ -47,6 +58,32 @@ Open Scope string_scope.
 PREFIX = "vf"
 RESIDENT = ("created", "in_memory", "paging_out", "paged_in")
 STALE = int(15 * 60 * 1e9)
+
+
+HUGE = 2 ** 62
+
+
+def cfg_of(capacity):
+    """(configured capacity as passed to the Manager, what /dev/shm offers, the capacity the store must work with)"""
+    if isinstance(capacity, (list, tuple)):
+        configured, avail = capacity
+    else:
+        configured, avail = capacity, HUGE
+    return configured, avail, (avail if not configured else min(configured, avail))
+
+
+class FakeSubprocess:
+    """the `subprocess` module as seen by cascade.shm.dataset: findmnt reports the scripted free space of /dev/shm"""
+
+    def run(self, cmd, *a, **k):
+        import subprocess
+        if cmd and cmd[0] == "findmnt":
+            return subprocess.CompletedProcess(cmd, 0, stdout=("AVAIL\n%d\n" % F.WORLD.avail).encode("ascii"), stderr=b"")
+        raise FileNotFoundError(2, "not available in the harness", cmd[0] if cmd else "")
+
+    def __getattr__(self, name):
+        import subprocess
+        return getattr(subprocess, name)
 
 
 def formula_shmid(key):
@@ -74,7 +111,14 @@ def patched():
     put(dataset, "SharedMemory", F.FakeSharedMemory)
     seams = {"time": put(dataset, "time", clock, optional=True), "time_ns": put(dataset, "time_ns", clock.time_ns, optional=True),
              "uuid": put(dataset, "uuid", uuids, optional=True), "uuid4": put(dataset, "uuid4", uuids.uuid4, optional=True)}
-    put(dataset, "get_capacity", lambda: 2 ** 62)
+    for name in ("monotonic_ns", "monotonic", "perf_counter_ns", "perf_counter"):      # clocks imported by name: each its own epoch
+        put(dataset, name, getattr(clock, name), optional=True)
+    # what /dev/shm offers is scripted per history (Driver sets F.WORLD.avail): through get_capacity and through findmnt itself
+    put(dataset, "get_capacity", lambda: F.WORLD.avail, optional=True)
+    put(dataset, "subprocess", FakeSubprocess(), optional=True)
+    # the module-level loggers: nothing is written, every call is a yield point of a Disk-thread task
+    put(dataset, "logger", F.YLogger(), optional=True)
+    put(disk, "logger", F.YLogger(), optional=True)
     put(disk, "SharedMemory", F.FakeSharedMemory)
     put(disk, "ThreadPoolExecutor", F.ManualExecutor)
     put(disk, "multiprocessing", types.SimpleNamespace(resource_tracker=types.SimpleNamespace(unregister=lambda *a, **k: None)))
@@ -113,7 +157,9 @@ class Driver:
         import cascade.shm.api as api
         import cascade.shm.server as server
         self.env, self.api = env, api
-        self.capacity = capacity
+        self.capacity = capacity                  # as in the case: a number or [configured, available]
+        self.configured, self.avail, self.effective = cfg_of(capacity)
+        F.WORLD.avail = self.avail
         self.ops = ops
         self.watch = watch            # callable(driver, index, op, obs) after every op (oracles look at the real Manager here)
         F.WORLD.reg = F.Registry()
@@ -124,7 +170,7 @@ class Driver:
         self.board.on_submit = lambda j: self.newjobs.append(j)
         self.srv = object.__new__(server.LocalServer)
         self.srv.sock = ScriptSock(self)
-        self.srv.manager = env.dataset.Manager(PREFIX, capacity)
+        self.srv.manager = env.dataset.Manager(PREFIX, self.configured)
         self.m = self.srv.manager
         self.shmid_of = {}            # key -> shmid as handed out by the server
         self.key_of = {}
@@ -149,6 +195,9 @@ class Driver:
         self.lock_log = []            # (lock attribute, acq|rel|busy|reacquire) events of the Manager's plain locks
         self.lock_marks = []          # len(lock_log) after each op
         self.watched_locks = F.watch_locks(self.m, self.lock_log)
+        self.unmodelled = None        # set when the history used a step the Coq model has no counterpart for (oracle only then)
+        self.fine = False             # a fine-grained step was used: the case goes to the fine-grained model (Shm/ManagerConc.v)
+        self.conc = {}                # what the interleavings of this history reached (for the histogram)
 
     # ---- helpers
     def canon(self, rdid):
@@ -210,6 +259,12 @@ class Driver:
                         self.watch(self, i, op, ob)
                     continue
                 self.pending = self.decode(op, resp)
+                if self.fine and self.pending[0] in ("add", "get"):
+                    bodies, cbs = self.in_flight()
+                    if cbs and self.pending[0] == "add" and self.pending[2] == "" and self.pending[1] is not None:
+                        self.conc["allocation-granted-during-a-callback"] = 1
+                    if cbs or bodies:
+                        self.conc["request-during-a-disk-thread-step"] = 1
                 self.inflight = ("free", i, op)
                 return api.ser(api.FreeSpaceRequest())
             # 2. next op
@@ -220,10 +275,14 @@ class Driver:
             if self.pc >= len(self.ops):
                 return api.ser(api.ShutdownCommand())
             i, op = self.pc, self.ops[self.pc]
-            if op[0] in ("drain", "drainf", "alloc", "read"):
+            if op[0] in ("drain", "drainf", "alloc", "read", "weave", "addfit", "peek"):
                 self.ops[i:i + 1] = self.expand(op)
                 continue
             self.pc += 1
+            if op[0] == "add" and op[3] is None:       # a request produced while the history runs: the clock has moved on by then
+                op[3] = self.last_now + 1
+            if op[0] == "get" and op[2] is None:
+                op[2] = self.last_now + 1
             if op[0] == "get":
                 del op[4:]
             elif op[0] == "close":
@@ -278,7 +337,70 @@ class Driver:
             if last and last[0] == "get" and last[4] == "wait" and tries > 0:
                 return [["drain"], ["read", key, tries - 1, 0]]
             return []
+        if k == "addfit":
+            free = last[-2] if last and isinstance(last[-2], int) else 0
+            size = free if 0 < free <= 64 else 1
+            import random
+            return [["alloc", op[1], payload(random.Random(f"{op[1]}:{size}:{len(self.obs)}"), size), 0, 0]]
+        if k == "peek":
+            _, key, label = op[:3]
+            if len(op) == 3:
+                return [["get", key, self.last_now + 1, [label]], ["peek", key, label, 1]]
+            if last and last[0] == "get" and last[4] == "" and last[1] is not None:
+                return [["close", key, label]]
+            return []
+        if k == "weave":
+            return self.weave(op)
         raise ValueError(k)
+
+    def weave(self, op):
+        """one step of an interleaving: a step of one of the pending jobs or the next request, then the macro again.  Two kinds of
+        interleaving (decided by the seed): random -- any job, steps of random length; round robin -- the job that has taken the fewest
+        steps so far passes exactly one yield point, so that every operation of a job is followed by one operation of every other
+        job in flight (each has read its chunk before the other copies its own, each is about to take the lock when the other is ...)"""
+        import random
+        _, seed, mode, reqs, pf = op
+        rng = random.Random(f"{seed}:{len(self.obs)}")
+        rr = seed % 3 == 0
+        taken = self.__dict__.setdefault("weave_taken", {})
+        choices = []
+        for j in self.board.jobs:
+            if j.phase in ("io", "unlink"):
+                fault = rng.random() < pf
+                if j.kind == "in" or mode == "any":
+                    choices.append(["bstep", j.jid, fault, 0 if rr else rng.choice([0, 0, 1, 1, 1, 2, 3])])
+                else:
+                    choices.append(["io", j.jid, fault] if j.phase == "io" else ["unlink", j.jid])
+            elif j.phase == "cb":
+                if mode == "any":
+                    choices.append(["cstep", j.jid, 0 if rr else rng.choice([0, 1, 1, 2])])
+                else:
+                    choices.append(["cpart", j.jid] if rr or rng.random() < 0.9 else ["cb", j.jid])
+        if rr and choices:
+            least = min(taken.get(c[1], 0) for c in choices)
+            choices = [c for c in choices if taken.get(c[1], 0) == least][:1]
+        if reqs:
+            if not choices or rng.random() < (0.2 if rr else 0.25 + 0.75 / (1 + len(choices))):
+                return [list(reqs[0]), ["weave", seed, mode, reqs[1:], pf]]
+        if not choices:
+            return []
+        c = rng.choice(choices)
+        taken[c[1]] = taken.get(c[1], 0) + 1
+        return [c, ["weave", seed, mode, reqs, pf]]
+
+    def note_orphan(self, j, stage):
+        """ghost events for the signatures of the finding readd-during-pageout"""
+        key = self.key_for(j.shmid)
+        orphan = self.m.datasets.get(key) is not self.job_obj.get(j.jid) or self.job_obj.get(j.jid) is None
+        if stage == "body" and j.kind == "out" and orphan and j.shmid in self.reg.segs:
+            # a page-out job whose Dataset object is gone meets a segment under its name: the key was allocated again
+            self.events.append(("orphan-sees-segment", len(self.obs), key))
+        if stage == "cb" and j.kind == "out" and j.ok and orphan:
+            self.events.append(("orphan-pageout-success", len(self.obs), key))
+
+    def in_flight(self):
+        bodies = [j for j in self.board.jobs if j.phase in ("io", "unlink") and j.btask is not None and not j.btask.done]
+        return bodies, self.board.cb_in_flight()
 
     def request_of(self, op):
         api, k = self.api, op[0]
@@ -359,22 +481,55 @@ class Driver:
                 return ["rfile", None]
         if k in ("io", "unlink"):
             jid = op[1]
-            j = self.board.jobs[jid] if 0 <= jid < len(self.board.jobs) else None
-            if j is not None and j.kind == "out" and j.phase == k:
-                key = self.key_for(j.shmid)
-                orphan = self.m.datasets.get(key) is not self.job_obj.get(jid) or self.job_obj.get(jid) is None
-                if orphan and j.shmid in self.reg.segs:
-                    # a page-out job whose Dataset object is gone meets a segment under its name: the key was allocated again
-                    self.events.append(("orphan-sees-segment", len(self.obs), key))
+            j = self.board.job(jid, k)
+            info = {}
+            if j is not None:
+                self.note_orphan(j, "body")
+                before = len(j.btask.passed) if j.btask is not None else None
             done = self.board.run_io(jid, fault=op[2]) if k == "io" else self.board.run_unlink(jid)
-            return [k, bool(done)]
+            if j is not None and j.kind == "in":
+                # did the segment come into being during THIS op (always, unless a fine-grained step had started the body before)
+                info = {"created": before is None or "shm:create" in j.btask.passed[before:], "fault": j.fault}
+            return [k, bool(done), info]
+        if k == "bstep":
+            jid = op[1]
+            j = self.board.job(jid, "io", "unlink")
+            if j is None:
+                return ["bstep", False, {}]
+            self.fine = True
+            self.note_orphan(j, "body")
+            if j.kind == "out":
+                self.unmodelled = self.unmodelled or "page-out body stepped through its yield points"
+            passed = self.board.body_step(jid, op[2], op[3])
+            bodies, _ = self.in_flight()
+            if len(bodies) >= 2:
+                self.conc["bodies-in-flight-together"] = 1
+                if sum(1 for b in bodies if b.kind == "in") >= 2:
+                    self.conc["page-ins-in-flight-together"] = 1
+            return ["bstep", True, {"kind": j.kind, "created": "shm:create" in passed, "fault": j.fault, "ended": j.phase == "cb", "passed": len(passed)}]
+        if k in ("cpart", "cstep"):
+            jid = op[1]
+            j = self.board.job(jid, "cb")
+            if j is None:
+                return [k, False, {}]
+            self.fine = True
+            if j.ctask is None:
+                self.note_orphan(j, "cb")
+            if k == "cstep":
+                self.unmodelled = self.unmodelled or "callback stepped through yield points other than lock acquisitions"
+                passed = self.board.cb_step(jid, op[2])
+            else:
+                passed = self.board.cb_part(jid)
+            if j.phase == "done" and j.cb_exc:
+                self.events.append(("callback-raised", len(self.obs), j.cb_exc))
+            if len(self.board.cb_in_flight()) >= 2:
+                self.conc["callbacks-in-flight-together"] = 1
+            return [k, True, {"ended": j.phase == "done", "passed": len(passed)}]
         if k == "cb":
             jid = op[1]
-            j = self.board.jobs[jid] if 0 <= jid < len(self.board.jobs) else None
-            if j is not None and j.phase == "cb" and j.kind == "out" and j.ok:
-                key = self.key_for(j.shmid)
-                if self.m.datasets.get(key) is not self.job_obj.get(jid) or self.job_obj.get(jid) is None:
-                    self.events.append(("orphan-pageout-success", len(self.obs), key))
+            j = self.board.job(jid, "cb")
+            if j is not None and j.ctask is None:
+                self.note_orphan(j, "cb")
             done = self.board.run_cb(jid)
             if done and j.cb_exc:
                 self.events.append(("callback-raised", len(self.obs), j.cb_exc))
@@ -507,7 +662,7 @@ def c_resp(nm, ob):
         return f"RWrote {cbool(ob[1])}"
     if k in ("rseg", "rfile"):
         return f"RBytes {copt(ob[1], c_bytes)}"
-    if k in ("io", "unlink", "cb"):
+    if k in ("io", "unlink", "cb", "bstep", "cpart", "cstep"):
         return f"RJob {cbool(ob[1])}"
     raise ValueError(k)
 
@@ -518,11 +673,38 @@ def c_out(nm, ob):
     return f"({c_resp(nm, ob)}, {cZ(free if free is not None else -1)}, {js})"
 
 
+def c_cfg(capacity):
+    configured, avail, _ = cfg_of(capacity)
+    return f"{copt(configured, cZ)}, {cZ(avail)}, {cZ(F.Clock.WALL0)}"
+
+
 def c_case(capacity, ops, obs):
+    """(configured capacity, what /dev/shm offers, epoch of the wall clock, ops with the scripted times, observed outputs)"""
     nm = Names()
     o = clist([c_op(nm, op) for op in ops])
     r = clist([c_out(nm, ob) for ob in obs])
-    return f"(({cZ(capacity)}, {o},\n    {r}) : Z * list op * list output)"
+    return f"(({c_cfg(capacity)}, {o},\n    {r}) : option Z * Z * Z * list op * list output)"
+
+
+def c_fop(nm, op, ob):
+    """an op of a fine-grained history for Shm/ManagerConc.v.  The body of a page-in job is one step of the model (JobIo), taken at the
+    moment the body creates its segment -- which the run observed; the other yield points of a body change nothing a request can see"""
+    k = op[0]
+    if k == "cpart":
+        # parked at a lock acquisition: one part of the model's callback; ran to its end: whatever parts the model has left
+        return f"FCbPart {cN(op[1])}" if ob[1] and not ob[2].get("ended") else f"FA (JobCb {cN(op[1])})"
+    if k in ("bstep", "io") and ob[1] and ob[2].get("created") is not None:
+        return f"FA (JobIo {cN(op[1])} {cbool(ob[2]['fault'])})" if ob[2]["created"] else "FNop"
+    if k == "bstep":
+        return f"FA (JobIo {cN(op[1])} {cbool(op[2])})"      # did not run: no such job, or its body has ended
+    return f"FA ({c_op(nm, op)})"
+
+
+def c_fcase(capacity, ops, obs):
+    nm = Names()
+    o = clist([c_fop(nm, op, ob) for op, ob in zip(ops, obs)])
+    r = clist([c_out(nm, ob) for ob in obs])
+    return f"(({c_cfg(capacity)}, {o},\n    {r}) : option Z * Z * Z * list fop * list output)"
 
 
 def hist_key(capacity, ops):
@@ -827,4 +1009,85 @@ def rewrite_history(rng):
     for k in rng.choice([["k1", "k2", "k1"], ["k2", "k1"], ["k1", "k2", "k1", "k2", "k1"]]):
         ops.append(["read", k, 4, 0])
     ops += [["rfile", "k1"], ["rseg", "k1"]]
+    return cap, ops
+
+
+def with_config(rng, cap):
+    """how the store comes to work with capacity `cap`: configured with it on a /dev/shm that offers plenty; configured with MORE than
+    /dev/shm offers (a setting copied from a bigger node, /dev/shm partly filled by somebody else): trimmed; not configured at all:
+    whatever /dev/shm offers; configured with what is available or a little less than it"""
+    r = rng.random()
+    if r < 0.5:
+        return cap
+    if r < 0.78:
+        return [cap + rng.choice([1, 1, 2, cap, 4 * cap, 2 ** 30]), cap]
+    if r < 0.9:
+        return [rng.choice([None, None, 0]), cap]
+    return [cap, rng.choice([cap, cap + 1, 2 * cap])]
+
+
+def conc_history(rng):
+    """what happens INSIDE the steps the other streams treat as atomic: the completion callbacks and the bodies of disk jobs run from
+    yield point to yield point (log calls, lock acquisitions, segment and file operations), and between two such points the main thread
+    serves requests (an allocation of exactly the free space, gets, retries, a purge) and other jobs of the same round take their steps:
+    several page-outs of one lottery round completing together, several page-ins (gets of on-disk keys arriving back to back) reading
+    their files at the same time.  Then everything is read back."""
+    cap = rng.choice([6, 8, 10, 12, 16])
+    nk = rng.choice([1, 2, 2, 3, 3, 4])
+    keys = [f"k{i}" for i in range(nk)]
+    mode = "lock" if rng.random() < 0.55 else "any"
+    pf = rng.choice([0, 0, 0, 0.15, 0.4])
+    t = [rng.choice([1, 1000])]
+    lab = [0]
+
+    def tick():
+        t[0] += rng.choice([1, 2, 3])
+        return t[0]
+
+    def label():
+        lab[0] += 1
+        return lab[0]
+    ops = []
+    room = cap - rng.choice([0, 0, 1, 2, 3])        # some space stays free: there is something to grant while a completion is in flight
+    left = room
+    for n, k in enumerate(keys):
+        s = max(1, min(left - (nk - n - 1), rng.randrange(1, max(2, room // nk + 2))))
+        left -= s
+        ops += [["add", k, s, tick()], ["write", k, payload(rng, s)], ["close", k, None]]
+        for _ in range(rng.choice([0, 0, 1, 2])):
+            r = label()
+            ops += [["get", k, tick(), [r]], ["close", k, r]]
+    big = rng.randrange(max(1, cap - room + 1), cap + 1) if rng.random() < 0.5 else cap
+
+    def requests(n):
+        out = []
+        for _ in range(n):
+            r = rng.random()
+            if r < 0.4:
+                out.append(["addfit", f"f{label()}"])
+            elif r < 0.65:
+                out.append(["peek", rng.choice(keys), label()])
+            elif r < 0.85:
+                out.append(["add", "big", big, None])
+            elif r < 0.93:
+                out.append(["purge", rng.choice(keys)])
+            else:
+                out.append(["add", f"g{label()}", rng.randrange(1, cap + 2), None])
+        return out
+    for _ in range(rng.choice([1, 1, 2])):
+        ops.append(["add", "big", big, tick()])
+        ops.append(["weave", rng.randrange(10 ** 6), mode, requests(rng.choice([0, 1, 1, 2, 3])), pf])
+    ops.append(["drain"])
+    ops.append(["alloc", "big", payload(rng, big), 3, 0])
+    if rng.random() < 0.8:
+        ops.append(["purge", "big"])
+    # the consumers come back: gets of all keys back to back (on-disk keys: page-in jobs in flight together), their completions woven
+    for _ in range(rng.choice([1, 1, 2])):
+        for k in rng.sample(keys, len(keys)):
+            ops.append(["peek", k, label()])
+        ops.append(["weave", rng.randrange(10 ** 6), mode, requests(rng.choice([0, 0, 1, 2])), pf])
+    ops.append(["drain"])
+    for k in keys:
+        ops.append(["read", k, 3, 0])
+        ops.append(["rfile", k])
     return cap, ops
